@@ -38,7 +38,9 @@ def run(chk):
     names = declared_theorems()
     missing = [t for t in THEOREMS if t not in names]
     theorems = [t for t in names]
-    proof_ok = c10mod.proof_stage(chk, theorems, ["FlacUpdIo.IoFault", "FlacUpdIo.IoFault_proofs", "FlacUpdIo.Props_C13"])
+    proof_ok = c10mod.proof_stage(chk, theorems, ["FlacUpdIo.IoFault", "FlacUpdIo.IoFault_proofs", "FlacUpdIo.Props_C13"], composed=True,
+                                  composed_theorems=["C13_real_codec_update_file", "C13_real_codec_inplace", "C13_real_codec_rebuilt", "C13_real_codec_example"],
+                                  composed_requires=["FlacE2EUpd.Props_FaultsE2E"])
     if missing:
         proof_ok = False
         chk.broken_tie("theorems-missing", "Props_C13.v no longer states: " + ", ".join(missing))
